@@ -104,6 +104,9 @@ type Runtime struct {
 	// per goroutine-less call state: the command loop is sequential; the concurrent mode keys states by a request header
 	states map[string]*callState
 	routes [][2]string
+	// the generated client endpoints the sequential calls share, and the wire record of the call in progress
+	seqEndpoints map[string]goa.Endpoint
+	seqWire      *wire
 	// UnionTypes are the alternative types of the OneOf unions of the generated service packages (registered by the glue)
 	UnionTypes []reflect.Type
 	// extension points of the gRPC part (grpc.go, build tag grpcglue)
@@ -372,6 +375,13 @@ type doer struct {
 	wire *wire
 }
 
+// seqDoer serves the sequential calls: the wire record of the call in progress is the runtime's.
+type seqDoer struct{ rt *Runtime }
+
+func (d *seqDoer) Do(req *http.Request) (*http.Response, error) {
+	return (&doer{rt: d.rt, id: "seq", wire: d.rt.seqWire}).Do(req)
+}
+
 func (d *doer) Do(req *http.Request) (*http.Response, error) {
 	var buf bytes.Buffer
 	if req.Host == "" {
@@ -468,7 +478,7 @@ func (rt *Runtime) Start() {
 	}
 }
 
-func (rt *Runtime) clientFor(s *ServiceInfo, d *doer) reflect.Value {
+func (rt *Runtime) clientFor(s *ServiceInfo, d goahttp.Doer) reflect.Value {
 	nc := reflect.ValueOf(s.NewClient)
 	ct := nc.Type()
 	args := []reflect.Value{reflect.ValueOf("http"), reflect.ValueOf("example.com"), reflect.ValueOf(d).Convert(ct.In(2)),
@@ -635,13 +645,33 @@ func (rt *Runtime) exec(c *command) (obs observation) {
 			}
 			payload = pv.Interface()
 		}
-		cl := rt.clientFor(s, &doer{rt: rt, id: id, wire: w})
-		ep := cl.MethodByName(codegen.Goify(c.Method, true))
-		if !ep.IsValid() {
-			obs.Harness = "generated client has no method " + codegen.Goify(c.Method, true)
-			return
+		var endpoint goa.Endpoint
+		if c.ID == "" {
+			// sequential calls go through ONE generated client endpoint per method, as an application's do: whatever a call leaves
+			// behind in the endpoint (or in the client) is there for the next one
+			rt.seqWire = w
+			endpoint = rt.seqEndpoints[c.Service+"."+c.Method]
 		}
-		endpoint := ep.Call(nil)[0].Interface().(goa.Endpoint)
+		if endpoint == nil {
+			var cl reflect.Value
+			if c.ID == "" {
+				cl = rt.clientFor(s, &seqDoer{rt})
+			} else {
+				cl = rt.clientFor(s, &doer{rt: rt, id: id, wire: w})
+			}
+			ep := cl.MethodByName(codegen.Goify(c.Method, true))
+			if !ep.IsValid() {
+				obs.Harness = "generated client has no method " + codegen.Goify(c.Method, true)
+				return
+			}
+			endpoint = ep.Call(nil)[0].Interface().(goa.Endpoint)
+			if c.ID == "" {
+				if rt.seqEndpoints == nil {
+					rt.seqEndpoints = map[string]goa.Endpoint{}
+				}
+				rt.seqEndpoints[c.Service+"."+c.Method] = endpoint
+			}
+		}
 		if mi.RequestDataType != nil {
 			// the endpoint takes <Method>RequestData{Payload, Body}
 			rd := reflect.New(mi.RequestDataType)
